@@ -550,8 +550,8 @@ func (db *Database) performFuzzySearch(query string, options SearchOptions) []Se
 
 	var results []SearchResult
 	currentPlatform := getCurrentPlatform()
-	for i, match := range matches {
-		if i >= options.Limit*2 { // Get more for better selection
+	for _, match := range matches {
+		if len(results) >= options.Limit*2 { // Get more for better selection
 			break
 		}
 
@@ -561,7 +561,8 @@ func (db *Database) performFuzzySearch(query string, options SearchOptions) []Se
 		}
 
 		// Apply fuzzy threshold
-		if options.FuzzyThreshold > 0 && match.Score < options.FuzzyThreshold {
+		// (0 means "no threshold"; useful thresholds are negative, e.g. the default -30)
+		if options.FuzzyThreshold != 0 && match.Score < options.FuzzyThreshold {
 			continue
 		}
 
